@@ -117,7 +117,10 @@ func callStateIdentity(auth *AuthContext) string {
 	if auth == nil || !auth.Authenticated {
 		return "\x00anonymous"
 	}
-	return auth.Domain + "\x00" + auth.Principal
+	// Framed like tokenAad: without the 0x01 an authenticated caller with an
+	// empty domain and the principal "anonymous" would share the anonymous
+	// caller's key.
+	return "\x01" + auth.Domain + "\x00" + auth.Principal
 }
 
 func (c *callStateCache) get(callID string, auth *AuthContext) *resolvedCall {
